@@ -46,8 +46,16 @@ nocache = dataset.nocache(_base, dispatch=Option("D", default=Option("E")))  # 3
 nocache.register(1, inner)
 derived = overloaded.with_options({"X": 11}).with_default_options({"D": 2})  # 4: derived dataset sharing overloads and cache
 
-GRAPHS = [plain, overloaded, outer, nocache, derived]
-NAMES = ["plain", "overloaded", "outer", "nocache", "derived"]
+def _loud(v):
+    return ("loud", v)
+
+
+selfref = dataset(_base, dispatch="D")                                   # 5: an overload defined through the dataset itself
+selfref.register(1, selfref.with_options({"D": 0}) >> _loud)
+selfref.register(2, Option("X", 0))
+
+GRAPHS = [plain, overloaded, outer, nocache, derived, selfref]
+NAMES = ["plain", "overloaded", "outer", "nocache", "derived", "selfref"]
 
 
 @dataset
@@ -65,7 +73,7 @@ def host_impl(x: int = Option("X")) -> tuple:                           # .overl
 
 DECORATOR_FORMS = [deco, host]
 _IMPL_X = overloaded.overloads.lookup[1]
-ALL_DATASETS = [plain, overloaded, _IMPL_X, inner, outer, nocache, derived, deco, host, host_impl]
+ALL_DATASETS = [plain, overloaded, _IMPL_X, inner, outer, nocache, derived, selfref, deco, host, host_impl]
 
 
 def reset_caches():
